@@ -15,6 +15,16 @@ from vp import mk, seqx
 
 ID = "C13"
 LEVEL = "model_checking"
+ENGINE = "seqx"
+TECHNIQUE = "explicit-state BFS over operation sequences on the real containers, compared with a reference cell at every transition"
+LEVEL_TEXT = ("All operation sequences (assign, update, +=, empty, reads, ==, detector setter) up to depth 3 (quick) / 4 "
+              "(thorough) over a finite palette of arrays (14 dtypes, 7 shapes, negative/NaN/inf/max values, 2-D and 3-D "
+              "photons) are executed on the real Photon/Pixel/Signal/Image/Phase containers of real CCD/CMOS/MKID/APD "
+              "detectors; after every transition the shape/dtype invariant, the untouched-on-error rule, the read rules "
+              "and the symmetric equality are checked against a reference cell. States are deduplicated by stored bytes.")
+LEVEL_NOTE = ("Bounded: depth and palette; numpy/xarray semantics are trusted; the reference cell is 60 lines of Python; "
+              "value of += on filled containers checked only where numpy defines it without overflow.")
+DESIGN_REF = "DESIGN.md section 4, C13"
 TIMEOUT = 900
 ASSUMPTIONS = [
     "palette of arrays is finite (14 dtypes x value patterns x 6 shapes); values outside it are not explored",
@@ -222,9 +232,10 @@ class Model:
             ops.append(["set", n])
         for n in self.arrays:
             ops.append(["iadd", n])
-        for n in self.arrays:
-            ops.append(["update", n])
-        ops += [["update_list", "float"], ["update_list", "int"], ["update_list", "ragged"], ["update_none"]]
+        if self.kind != "photon":         # Photon has no update() in its public API
+            for n in self.arrays:
+                ops.append(["update", n])
+            ops += [["update_list", "float"], ["update_list", "int"], ["update_list", "ragged"], ["update_none"]]
         if self.kind == "photon":
             for n in self.arrays:
                 if n.split(":")[0] in ("float64", "int32", "float32") :
@@ -556,7 +567,7 @@ def _combos():
 
 
 def shards(tier, seed):
-    depth = 2 if tier == "quick" else 3
+    depth = 3 if tier == "quick" else 4
     out = []
     for d, k in _combos():
         # full depth on one detector type per kind, depth-1 less on the others (same container classes)
